@@ -99,7 +99,8 @@ def run(ctx):
     random.Random(ctx["seed"] + 55).shuffle(order)
     _ORDER[:] = order
     _N_PATTERNS[0] = len(_PATTERNS) if ctx["tier"] != "quick" else min(len(_PATTERNS), 90)
-    common.TIE_EXCUSES["value"] = True      # clause 8 of check_c05 counts lines
+    common.TIE_EXCUSES["value"] = True      # clause 8 of check_c05 counts lines: excused on tie-flagged documents,
+    common.TIE_EXCUSES["clauses"] = {"8"}   # the structural clauses 1-7 are not
     _EXTRA3[:] = _DIRECTED3 if ctx["tier"] == "quick" else _PATTERNS3
     return common.run_docprop(ctx, "c05", generate, None, n_quick=180 + 90 + len(_DIRECTED3) + len(_DIVIDER_RUNS),
                               n_thorough=3000 + len(_PATTERNS) + len(_PATTERNS3) + len(_DIVIDER_RUNS))
